@@ -117,6 +117,94 @@ def _enclosing_tests(rw):
   return ' '.join(out)
 
 
+def _is_missing_cmp(e, names=None):
+  """`MISSING_VALUE == x` / `x == MISSING_VALUE` (x optionally restricted)."""
+  if not (isinstance(e, ast.Compare) and len(e.ops) == 1 and isinstance(e.ops[0], ast.Eq)):
+    return False
+  l, r = A.unparse(e.left), A.unparse(e.comparators[0])
+  for a, b in ((l, r), (r, l)):
+    if a.endswith('MISSING_VALUE') and (names is None or b in names):
+      return True
+  return False
+
+
+def _primitive_guards(idx, word):
+  """Is the List write primitive guarded from the inside?
+
+  max_size: every raw growth (list.insert / append) in the primitive is
+  dominated by a raising test that reads max_size.
+  min_size: assuming the stored value is the MISSING marker (= a removal
+  request, executed later by the _on_change sweep) and a value spec exists,
+  every path to the raw item store passes a raising test that reads min_size."""
+  f = idx.lookup_method(S.LIST, S.PRIMITIVE)
+  g = C.cfg_of(f.node)
+  def raw(slots):
+    return [n for n in g.nodes if n.ast is not None and any(
+        (c08._raw_of_call(idx, f, c) or '') in slots for c in n.calls())]
+  guards = {n.id for n in g.nodes if n.kind == 'test' and g.always_raises_from(n, 'true') and any(
+      isinstance(x, ast.Attribute) and x.attr == word for x in ast.walk(n.ast))}
+  if not guards:
+    return False
+  blocked_edges = set()
+  for n in g.nodes:
+    if n.kind != 'test':
+      continue
+    t = A.unparse(n.ast, 200)
+    # no bound configured: nothing to enforce on that branch
+    if t in ('self._value_spec', 'self.value_spec'):
+      blocked_edges |= {(n.id, m.id, l) for m, l in n.succ if l == 'false'}
+    if isinstance(n.ast, ast.Compare) and len(n.ast.ops) == 1 and isinstance(n.ast.comparators[0], ast.Constant) \
+        and n.ast.comparators[0].value is None and (word in t or '_value_spec' in t):
+      lab = 'false' if isinstance(n.ast.ops[0], ast.IsNot) else 'true'
+      blocked_edges |= {(n.id, m.id, l) for m, l in n.succ if l == lab}
+    if word == 'min_size' and _is_missing_cmp(n.ast, ('value', 'new_value')):
+      blocked_edges |= {(n.id, m.id, l) for m, l in n.succ if l == 'false'}
+  targets = raw(('list.insert', 'list.append')) if word == 'max_size' else raw(('list.__setitem__',))
+  if not targets:
+    return False
+  seen, _ = g.reach(g.entry, blocked_nodes=guards, blocked_edges=blocked_edges, follow_exc=False)
+  return not any(t.id in seen for t in targets)
+
+
+def _sweeps_only_placeholders(idx, f):
+  """Every raw list.__delitem__ of f deletes an index taken from a collection
+  that only ever receives indices whose item compared equal to the MISSING
+  marker (loop + guarded append, or a filtering comprehension)."""
+  g = C.cfg_of(f.node)
+  dels = [c for c in A.calls_in(f.node) if c08._raw_of_call(idx, f, c) == 'list.__delitem__']
+  if not dels:
+    return False
+  for c in dels:
+    ia = c.args[-1]
+    if not isinstance(ia, ast.Name):
+      return False
+    loops = [n for n in ast.walk(f.node) if isinstance(n, ast.For) and any(x is c for x in ast.walk(n))
+             and ia.id in A.assigned_names(n.target)]
+    if not loops:
+      return False
+    it = loops[-1].iter
+    while isinstance(it, ast.Call) and (A.call_name(it) or '') in ('reversed', 'sorted', 'list', 'tuple') and it.args:
+      it = it.args[0]
+    if not isinstance(it, ast.Name):
+      return False
+    coll = it.id
+    for _, v in D.defs_of(f.node, coll):
+      if isinstance(v, ast.List) and not v.elts:
+        continue
+      if isinstance(v, ast.ListComp) and any(_is_missing_cmp(i) for gen in v.generators for i in gen.ifs):
+        continue
+      return False
+    # appends happen only under a MISSING comparison
+    tests = [n for n in g.nodes if n.kind == 'test' and _is_missing_cmp(n.ast)]
+    blocked = {(n.id, m.id, l) for n in tests for m, l in n.succ if l == 'true'}
+    seen, _ = g.reach(g.entry, blocked_edges=blocked, follow_exc=False)
+    for n in g.nodes:
+      if n.ast is not None and n.id in seen and any(
+          (A.call_name(x) or '') in (coll + '.append', coll + '.extend', coll + '.insert') for x in n.calls()):
+        return False
+  return True
+
+
 def _bound_analysis(idx, word):
   """GuardAnalysis whose guard is a raising test that reads `word`
   (max_size / min_size); the no-bound outcomes (`... is not None` false,
@@ -137,6 +225,12 @@ def _bound_analysis(idx, word):
       return 'false'
     return None
 
+  prim_guarded = _primitive_guards(idx, word)
+  prim = idx.lookup_method(S.LIST, S.PRIMITIVE)
+  onchange = idx.lookup_method(S.LIST, '_on_change')
+  sweep_ok = (word == 'min_size' and prim_guarded and onchange is not None
+              and _sweeps_only_placeholders(idx, onchange))
+
   def sinks(func, node):
     out = []
     loc = f'{func.module.relpath}:{node.lineno}'
@@ -144,6 +238,10 @@ def _bound_analysis(idx, word):
       raw = c08._raw_of_call(idx, func, call)
       if raw and raw.startswith('list.'):
         slot = raw.split('.')[1]
+        if func is prim and prim_guarded and word == 'max_size':
+          continue   # growth inside the primitive is guarded there (checked by _primitive_guards)
+        if func is onchange and sweep_ok and slot == '__delitem__':
+          continue   # placeholder sweep: the removal request was bounded when the marker was stored
         if word == 'max_size' and slot in ('append', 'insert', 'extend', '__iadd__', '__imul__'):
           out.append((f'raw {raw}', loc, 'self'))
         if word == 'min_size' and slot in ('__delitem__', 'clear', 'pop', 'remove'):
@@ -154,7 +252,7 @@ def _bound_analysis(idx, word):
         continue
       recv, _, meth = n.rpartition('.')
       if word == 'max_size' and meth == S.PRIMITIVE and recv and recv != 'super()' \
-          and recv != 'self._sym_attributes':
+          and recv != 'self._sym_attributes' and not prim_guarded:
         out.append((f'{recv}.{meth} (may append/insert)', loc, recv))
     return out
 
@@ -192,6 +290,25 @@ def rule_b(ctx):
              '' if ok else f'{res[0][1]} at {res[0][2]} reachable with no {word} check via '
              + ' -> '.join(c.rsplit('.', 1)[-1] for c in res[0][0]),
              None if ok else dict(chain=res[0][0], path=res[0][3]))
+  # the write primitive guards itself (all callers are covered at once)
+  prim = idx.lookup_method(S.LIST, S.PRIMITIVE)
+  for word, what in (('max_size', 'every raw growth (list.insert / append) inside the write primitive is '
+                                  'dominated by a max_size test that raises'),
+                     ('min_size', 'storing the MISSING marker over an item (= a removal request, executed by '
+                                  'the _on_change sweep) is dominated by a min_size test that raises')):
+    ok = _primitive_guards(idx, word)
+    if ok:
+      ctx.ob('C03.b', f'{prim.fq}#{word}', True, what, prim.loc)
+    else:
+      ctx.info('C03.b', f'{prim.fq}#{word}', 'the primitive has no internal ' + word +
+               ' guard: every caller is checked instead', prim.loc)
+  oc = idx.lookup_method(S.LIST, '_on_change')
+  if oc is not None and _primitive_guards(idx, 'min_size'):
+    ok = _sweeps_only_placeholders(idx, oc)
+    ctx.ob('C03.b', f'{oc.fq}#sweep', ok,
+           'the sweep deletes only indices whose item compared equal to the MISSING marker '
+           '(the removal was bounded when the marker was stored)', oc.loc,
+           'the sweep can delete an item that is not a placeholder: no min_size test covers it')
   for fq, why in SIZE_EXEMPT.items():
     idx.func(fq)
     ctx.ob('C03.b', fq, True, 'exempt: ' + why, idx.func(fq).loc)
